@@ -17,6 +17,7 @@ copy; the model unmasks exactly `pnLen` bytes, which is the same function of the
 -/
 import Uquic.Model.Crypto.Bytes
 import Uquic.Model.Crypto.PN
+import Uquic.Generated.Handshake
 
 namespace Uquic.Model.Packet
 open Uquic.Model.Bytes Uquic.Model.PN
@@ -35,8 +36,10 @@ structure Keys where
   hp : Bytes → Nat → UInt8
   long : Bool
 
-/-- header_protector.go: `mask[0] & 0xf` (long) / `mask[0] & 0x1f` (short) -/
-def firstMask (long : Bool) : UInt8 := if long then 0x0f else 0x1f
+/-- header_protector.go: `mask[0] & 0xf` (long) / `mask[0] & 0x1f` (short) — the literals are regenerated
+    from the source (`Uquic.Gen.Handshake`); `hp_mask_bits_rfc` in Props/C05 states that they are the RFC's -/
+def firstMask (long : Bool) : UInt8 :=
+  if long then UInt8.ofNat Uquic.Gen.Handshake.aesFirstByteMaskLong else UInt8.ofNat Uquic.Gen.Handshake.aesFirstByteMaskShort
 
 /-- `protocol.PacketNumberLen(typeByte&0x3) + 1` -/
 def pnLenOf (first : UInt8) : Nat := (first &&& 3).toNat + 1
